@@ -24,10 +24,12 @@ func runC11(c *Ctx) {
 
 	c.Rule("R11a", "Process.Fork: the F_FUNCTION arm stores NewVariables(fork.Process) into fork.Variables (and nothing else after it); in every other arm the last store to fork.Variables is p.Variables")
 	if fd, _ := c.MustFunc("R11a", "lang", "Process", "Fork"); fd != nil {
+		r11defs := localDefs(info, fd.Body)
 		c.checkForkScoping(info, fd, "Variables", "R11a", func(rhs ast.Expr) string {
+			rhs = r11defs.resolve1(info, rhs) // a table kept in a local defined once (locals := NewVariables(fork.Process); parentTable := p.Variables)
 			if call, ok := unparen(rhs).(*ast.CallExpr); ok && callIs(info, call, mx("lang"), "", "NewVariables") {
 				if len(call.Args) == 1 {
-					if se, ok := unparen(call.Args[0]).(*ast.SelectorExpr); ok && se.Sel.Name == "Process" {
+					if se, ok := r11defs.resolve1(info, call.Args[0]).(*ast.SelectorExpr); ok && se.Sel.Name == "Process" { // fork.Process or proc := fork.Process
 						if id, ok := unparen(se.X).(*ast.Ident); ok && info.ObjectOf(id) != nil && info.ObjectOf(id) == forkResultObj(info, fd) {
 							return "fresh"
 						}
